@@ -990,6 +990,26 @@ def probe_log_queue():
             pass
 
 
+def probe_ctx_binding():
+    """ctx_binding: a Lab whose context attribute is given another dict runs its next tasks with that one."""
+    import logging
+    from labtech.lab import Lab
+    from lv_probe_types import PCtxAll
+    logging.getLogger('labtech').setLevel(logging.CRITICAL)
+    lab = Lab(storage=None, runner_backend='serial', context={'a': 1}, notebook=False)
+    t1, t2 = PCtxAll(n=1), PCtxAll(n=2)
+    r1 = lab.run_tasks([t1], disable_progress=True, disable_top=True).get(t1)
+    lab.context = {'a': 2, 'b': 3}
+    r2 = lab.run_tasks([t2], disable_progress=True, disable_top=True).get(t2)
+    if r1 != [('a', 1)]:
+        return None
+    if r2 == [('a', 2), ('b', 3)]:
+        return 'CtxAtRun'
+    if r2 == [('a', 1)]:
+        return 'CtxAtInit'
+    return None
+
+
 def probe_view():
     """view_mode: under the fork backend, does a worker forked after the in-memory results have been empty once still see the
     results of its dependencies?  (One worker; an independent task finishes first and its result is released at once.)"""
@@ -1051,6 +1071,7 @@ def all_probes():
     out['view'] = _limited(probe_view)
     out['mark'] = _limited(probe_mark)
     out['lq'] = _limited(probe_log_queue)
+    out['binding'] = _limited(probe_ctx_binding)
     out['scope'] = _limited(probe_scope)
     out.update(_limited(probe_storage) or {})
     r = _limited(probe_cache) or (None, None)
